@@ -138,3 +138,13 @@ Print Assumptions C01_table_row_read_back.
 Theorem C01_table_alignment_kept : forall d, alignment (delim_norm d) = alignment d.
 Proof. exact delimiter_alignment. Qed.
 Print Assumptions C01_table_alignment_kept.
+
+Theorem C01_rendered_item_marker_read_back : forall (i start : Z) rest, (0 <= i + start)%Z ->
+  let num := Z.min (i + start) 999999999 in
+  read_ol_marker (zstr num ++ [46; 32]%N ++ rest) = Some (Z.to_N num, (length (zstr num) + 2)%nat).
+Proof. exact rendered_item_marker_read_back. Qed.
+Print Assumptions C01_rendered_item_marker_read_back.
+
+Theorem C01_fence_language_escapes_undone : forall s, strip_backslash (escape_backslashes_inner s) = s.
+Proof. exact strip_escape_backslashes_inner. Qed.
+Print Assumptions C01_fence_language_escapes_undone.
